@@ -65,6 +65,12 @@ impl HttpObs {
     }
 }
 
+/// set by a scenario: the next HTTP request with a body delivers its last chunk only after two hours of *virtual* time
+/// (the runtime's clock is paused and jumps to the next timer when idle), so any time-dependent handling of a slow
+/// upload shows, whatever its constant
+pub static STALL_ALL: std::sync::atomic::AtomicBool = std::sync::atomic::AtomicBool::new(false);
+pub static STALL_NEXT: std::sync::atomic::AtomicBool = std::sync::atomic::AtomicBool::new(false);
+
 pub type Caller = Box<dyn Fn(ReqSpec) -> LocalBoxFuture<'static, HttpObs>>;
 
 pub async fn make_caller(web: WebServer) -> Caller {
@@ -79,10 +85,34 @@ pub async fn make_caller(web: WebServer) -> Caller {
                     r = r.append_header((HeaderName::from_bytes(k.as_bytes()).unwrap(), HeaderValue::from_bytes(v).unwrap()));
                 }
                 let req = r.to_request();
-                let chunks: Vec<Result<Bytes, PayloadError>> = spec.chunks.iter().map(|c| Ok(Bytes::from(c.clone()))).collect();
-                let s: std::pin::Pin<Box<dyn futures::Stream<Item = Result<Bytes, PayloadError>>>> = Box::pin(futures::stream::iter(chunks));
+                let mut raw: Vec<Vec<u8>> = spec.chunks.clone();
+                let mut stall = STALL_NEXT.swap(false, std::sync::atomic::Ordering::SeqCst);
+                if stall && raw.len() == 1 && raw[0].len() >= 2 {
+                    let half = raw[0].len() / 2;
+                    let tail = raw[0].split_off(half);
+                    raw.push(tail);
+                }
+                stall = stall && raw.len() >= 2;
+                let nchunks = raw.len();
+                let chunks: Vec<Result<Bytes, PayloadError>> = raw.into_iter().map(|c| Ok(Bytes::from(c))).collect();
+                let s: std::pin::Pin<Box<dyn futures::Stream<Item = Result<Bytes, PayloadError>>>> = if stall {
+                    use futures::StreamExt;
+                    tokio::time::pause();
+                    Box::pin(futures::stream::iter(chunks.into_iter().enumerate()).then(move |(i, c)| async move {
+                        if i + 1 == nchunks {
+                            tokio::time::sleep(std::time::Duration::from_secs(7200)).await;
+                        }
+                        c
+                    }))
+                } else {
+                    Box::pin(futures::stream::iter(chunks))
+                };
                 let (req, _) = req.replace_payload(Payload::Stream { payload: s });
-                match app.call(req).await {
+                let called = app.call(req).await;
+                if stall {
+                    tokio::time::resume();
+                }
+                match called {
                     Ok(resp) => {
                         let h = |n: &str| resp.headers().get(n).map(|v| String::from_utf8_lossy(v.as_bytes()).to_string());
                         let mut o = HttpObs {
